@@ -18,6 +18,10 @@ EventOk(e) ==
   CASE e.k = "eff" ->
          /\ \A op \in Ops : \A j \in 1..Len(e.bs) : e.res[op][j] = BinOp(op, e.a, e.bs[j])
          /\ e.iter = InOrder(SetOf(e.a)) /\ e.debug = InOrder(SetOf(e.a))
+         /\ \A j \in 1..Len(e.after) :        \* provided Iterator methods after k calls of next()
+               LET left == IterLeft(e.a, e.after[j].k) IN
+               /\ e.after[j].count = left /\ e.after[j].skip_count = left
+               /\ e.after[j].lo <= left /\ (e.after[j].hi = 999999 \/ left <= e.after[j].hi)
          /\ e.plain = (e.a = 0) /\ e.clear = 0
     [] e.k = "set" ->
          LET g0 == Gr(e.st0) g1 == Gr(e.st1) IN
